@@ -43,9 +43,11 @@ def pool(bench):
             'sat': pu.rq('sat', 'Lannion_CAS', 'Vannes_KBE', typ='VerifDense', mode=None, spacing=25e9, bw=200e9,
                          bidir=True),
             # nopath / loose: same ends, same include list (an amplifier of the opposite direction), hop type differs
-            'nopath': pu.rq('nopath', 'Lannion_CAS', 'Lorient_KMA', route=['east edfa in Lorient_KMA to Loudeac']),
-            'loose': pu.rq('loose', 'Lannion_CAS', 'Lorient_KMA', route=['east edfa in Lorient_KMA to Loudeac'],
-                           strict=False),
+            # (forced mode WITH impairment penalties: the receiver dense and slot also end on then holds penalties)
+            'nopath': pu.rq('nopath', 'Lannion_CAS', 'Lorient_KMA', typ='VerifMixed', mode='p1',
+                            route=['east edfa in Lorient_KMA to Loudeac']),
+            'loose': pu.rq('loose', 'Lannion_CAS', 'Lorient_KMA', typ='VerifMixed', mode='p1',
+                           route=['east edfa in Lorient_KMA to Loudeac'], strict=False),
             'badmode': pu.rq('badmode', 'Lannion_CAS', 'Vannes_KBE', typ='VerifHard', mode=None, spacing=75e9, bidir=True),
             'slot': pu.rq('slot', 'Brest_KLA', 'Lorient_KMA', route=['roadm Lannion_CAS'], slots=[(0, 4)]),
         }
@@ -54,8 +56,9 @@ def pool(bench):
             'dense': pu.rq('dense', 'a', 'g', typ='VerifDense', mode='d1', spacing=37.5e9),
             'sat': pu.rq('sat', 'a', 'h', typ='VerifDense', mode=None, spacing=25e9, bw=200e9, bidir=True),
             # nopath / loose: same ends, same include list (nodes in an impossible order), hop type differs
-            'nopath': pu.rq('nopath', 'a', 'g', route=['roadm h', 'roadm a', 'roadm h']),
-            'loose': pu.rq('loose', 'a', 'g', route=['roadm h', 'roadm a', 'roadm h'], strict=False),
+            'nopath': pu.rq('nopath', 'a', 'g', typ='VerifMixed', mode='p1', route=['roadm h', 'roadm a', 'roadm h']),
+            'loose': pu.rq('loose', 'a', 'g', typ='VerifMixed', mode='p1', route=['roadm h', 'roadm a', 'roadm h'],
+                           strict=False),
             'badmode': pu.rq('badmode', 'a', 'h', typ='VerifHard', mode=None, spacing=75e9, bidir=True),
             'slot': pu.rq('slot', 'a', 'g', typ='Voyager', mode='mode 1', slots=[(0, 4)]),
         }
@@ -77,13 +80,22 @@ def prepare_pool(bench, chk):
     p['slot']['path-constraints']['te-bandwidth']['effective-freq-slot'] = [{'N': n - m + 4, 'M': 4}]
     solos = {}
     for c, r in p.items():
-        run = pu.run_batch(bench, {'path-request': [r]}, f'{bench}:solo:{c}', want_csv=False)
+        run = pu.run_batch(bench, {'path-request': [r]}, f'{bench}:solo:{c}')
         if run.exc:
-            chk.violation(f'B2|exception-in-planning|{c}', dict(bench=bench, cls=c, exception=run.exc, tb=run.tb))
-            raise Machinery(f'{bench}: solo run of {c} raised {run.exc}')
-        if run.entries[0]['o']['reason'] != SOLO_STATUS[c]:
-            raise Machinery(f'{bench}: class {c} is not realised (solo reason {run.entries[0]["o"]["reason"]!r})')
+            chk.violation(f'B2|exception-in-planning|{c}|{run.exc.split(":")[0]}',
+                          dict(bench=bench, cls=c, exception=run.exc, tb=run.tb))
+            return None, None
+        got = run.entries[0]['o']
+        if got['reason'] != SOLO_STATUS[c] or (c == 'sat' and got['mode'] != 'd1'):
+            # the class is defined by its library entry and route; MC_Planning predicts its verdict alone (sat: the first
+            # explored mode is rejected for its penalty, the second - no penalty defined - is selected).  Green on the
+            # unchanged tree, so a deviation is the code's
+            chk.violation(f'B2|ModelAgrees|{bench}|{c}|alone',
+                          dict(bench=bench, cls=c, predicted=SOLO_STATUS[c] or 'served', reason=got['reason'],
+                               mode=got['mode'], raised=got['raised'], request=r))
         solos[c] = run
+    if any(not solos[c].entries[0]['o']['nm'] for c in ('dense', 'sat', 'slot', 'loose')):
+        return p, solos                       # a deviating class was reported above; the geometry cannot be read off it
     oms = {c: set(solos[c].entries[0]['o']['oms']) for c in ('dense', 'sat', 'slot', 'loose')}
     lo = {c: solos[c].entries[0]['o']['nm'][0][0] - solos[c].entries[0]['o']['nm'][0][1] for c in oms}
     if not all(oms[a] & oms[b] for a in oms for b in oms) or len(set(lo.values())) != 1:
@@ -140,12 +152,14 @@ def trace_spec_selftest(chk, t0):
 # ------------------------------------------------------------------------------------------------------------- B2
 def b2(chk, bench, hists):
     p, solos = prepare_pool(bench, chk)
+    if p is None:
+        return 0
     solo_core = {c: pu.core_of(solos[c].entries[0]) for c in p}
     traces, runs = [], {}
     for h in hists:
         order = h['order']
         name = f'{bench}:' + '>'.join(order)
-        run = pu.run_batch(bench, {'path-request': [copy.deepcopy(p[c]) for c in order]}, name, want_csv=False)
+        run = pu.run_batch(bench, {'path-request': [copy.deepcopy(p[c]) for c in order]}, name)
         chk.case(name, nontrivial=len(order) > 1)
         if run.exc:
             chk.violation(f'B2|exception-in-planning|{bench}|{">".join(sorted(order))}',
@@ -199,26 +213,33 @@ def reorder(data, order):
     return d
 
 
-def b3_file(chk, bench, label, data, orders, solo_cache, api=True):
+def b3_file(chk, bench, label, data, orders, solo_cache, api=True, warm=False):
     """the batch in several orderings (the first one is the reference) and, last, built through the API; every entry is
     compared with (solo) the run of its unit alone and (ref) the same entry of the reference ordering"""
     traces, runs = [], {}
     ref = None
-    todo = [(oname, order, 'json') for oname, order in orders]
+    todo = [(oname, order, 'json', None) for oname, order in orders]
     if api:
-        todo.append(('api', orders[0][1], 'api'))
+        todo.append(('api', orders[0][1], 'api', None))
+    if warm:            # the same batch on a designed network that was already used to simulate its forced-mode requests
+        used = [r for r in data['path-request'] if r['path-constraints']['te-bandwidth'].get('trx_mode')]
+        if used:
+            todo.append(('used-network', orders[0][1], 'json', used))
     lab = label.split('-')[0].split('@')[0]
-    for oname, order, via in todo:
+    for oname, order, via, warm_reqs in todo:
         d = reorder(data, order)
         name = f'{label}:{oname}'
-        run = pu.run_batch(bench, d, name, want_csv=False, via=via)
+        run = pu.run_batch(bench, d, name, via=via, warm=warm_reqs)
         chk.case(name, nontrivial=len(order) > 1)
+        if run.warm_changed:       # simulating on the network's own elements changed its settings (clamped gains): the
+            chk.cov['used_network_runs_unjudged'] = chk.cov.get('used_network_runs_unjudged', 0) + 1    # premise is gone
+            continue
         if run.exc:
             if run.refused and ref is None and via == 'json':
                 chk.cov['b3_batches_refused_by_the_code'] = chk.cov.get('b3_batches_refused_by_the_code', 0) + 1
                 return []                  # ServiceError / DisjunctionError for the batch as written: nothing to compare
             kind = 'refusal-depends-on-order-or-entry-path' if run.refused else 'exception-in-planning'
-            chk.violation(f'B3|{kind}|{lab}|{via}|{run.exc.split(":")[0]}',
+            chk.violation(f'B3|{kind}|{lab}|{"used" if warm_reqs else via}|{run.exc.split(":")[0]}',
                           dict(name=name, exception=run.exc, tb=run.tb, requests=d['path-request']))
             continue
         if ref is None:
@@ -232,7 +253,7 @@ def b3_file(chk, bench, label, data, orders, solo_cache, api=True):
             if len(u) == len(run.inputs) and via == 'json':
                 solo_cache.setdefault(key, run)            # the unit is the whole batch: this run IS its run alone
             if key not in solo_cache:
-                solo_cache[key] = pu.run_batch(bench, restrict(d, u), f'{label}:solo:{"+".join(u)}', want_csv=False)
+                solo_cache[key] = pu.run_batch(bench, restrict(d, u), f'{label}:solo:{"+".join(u)}')
             srun = solo_cache[key]
             solo = None
             if srun.exc:
@@ -261,7 +282,7 @@ def b3_judge(chk, jobs):
             what = 'batch' if ent is None else ('sync' if any(
                 set(ent['e']['ids']) & set(s['svec']['request-id-number']) for s in data.get('synchronization', [])) else
                 ('aggregated' if len(ent['e']['ids']) > 1 else 'single'))
-            via = 'api' if t['name'].endswith(':api') else 'json'
+            via = 'api' if t['name'].endswith(':api') else 'used' if t['name'].endswith(':used-network') else 'json'
             chk.violation(f'B3|{clause}|{label.split("-")[0].split("@")[0]}|{what}|{via}', dict(
                 trace=t['name'], step=step, clause=clause, entry=ent,
                 net_changed=[u for u, a, b in zip(run.net_uids, run.netB, run.netA) if a != b][:10]))
@@ -294,8 +315,9 @@ def run(chk):
     chk.exhaustive = True
     bare = '\n'.join(ln for ln in base.splitlines() if not ln.startswith(('INVARIANT', 'PROPERTY')))
     for clause, kind in (('Independent', 'INVARIANT'), ('OnlySlotsDependOnHistory', 'INVARIANT'),
-                         ('NetworkFrozen', 'PROPERTY'), ('SimParamsFrozen', 'PROPERTY')):
-        if chk.tier == 'quick' and clause == 'OnlySlotsDependOnHistory':
+                         ('NetworkFrozen', 'PROPERTY'), ('SimParamsFrozen', 'PROPERTY'),
+                         ('ReportedViewsIndependent', 'INVARIANT')):
+        if chk.tier == 'quick' and clause in ('OnlySlotsDependOnHistory', 'ReportedViewsIndependent'):
             continue                                      # thorough tier only (one JVM start less in the quick tier)
         rl = tlc.run('MC_Planning', cfg_text=bare.replace('Leaky = FALSE', 'Leaky = TRUE') + f'\n{kind} {clause}\n',
                      timeout=600, tag='c16-leaky')
@@ -303,7 +325,7 @@ def run(chk):
         if rl.violated != clause:
             raise Machinery(f'vacuity: the defective model (Leaky) does not violate {clause}: {rl.error}')
     chk.cov['clauses_shown_non_vacuous'] = ['Independent', 'NetworkFrozen', 'SimParamsFrozen'] + \
-        (['OnlySlotsDependOnHistory'] if chk.tier == 'thorough' else [])
+        (['OnlySlotsDependOnHistory', 'ReportedViewsIndependent'] if chk.tier == 'thorough' else [])
     phase['B1'] = round(time.time() - t0, 1)
     # ---- B2
     hists = sorted(r.emitted, key=lambda h: (len(h['order']), h['order']))
@@ -313,7 +335,7 @@ def run(chk):
         rng = random.Random(chk.seed)
         short = [h for h in hists if len(h['order']) <= 2]
         long_ = [h for h in hists if len(h['order']) > 2]
-        sel = short + rng.sample(long_, 16)
+        sel = short + rng.sample(long_, 10)
         n = b2(chk, 'meshV2', sel)
         chk.cov['b2_histories'] = {'meshV2': n}
     else:
@@ -347,18 +369,27 @@ def run(chk):
                     o = list(range(n))
                     rng.shuffle(o)
                     orders.append((f'shuffled-{k}', o))
-            jobs += b3_file(chk, bench, f'{label}@{bench}', {'path-request': reqs}, orders, cache)
+            jobs += b3_file(chk, bench, f'{label}@{bench}', {'path-request': reqs}, orders, cache, warm=True,
+                            api=chk.tier == 'thorough' or label.endswith('-A'))
+        # include lists naming line elements of the own route (explicit routes) next to bidirectional requests whose
+        # reverse direction runs through the same OMS
+        for label, reqs in pu.explicit_route_batches(bench)[:1 if chk.tier == 'quick' else 2]:
+            n = len(reqs)
+            orders = [('original', list(range(n))), ('reversed', list(reversed(range(n))))]
+            jobs += b3_file(chk, bench, f'{label}@{bench}', {'path-request': reqs}, orders, cache, warm=True,
+                            api=chk.tier == 'thorough')
     # synchronization vectors with several feasible disjoint combinations: every ordering of the path-request list
     for bench in (['meshV2'] if chk.tier == 'quick' else ['meshV2', 'testTopology']):
         for label, data in pu.sync_batches(bench):
             n = len(data['path-request'])
             orders = [('original', list(range(n))), ('reversed', list(reversed(range(n))))]
             if n > 2:
-                for k in range(1 if chk.tier == 'quick' else 4):
+                for k in range(0 if chk.tier == 'quick' else 4):
                     o = list(range(n))
                     rng.shuffle(o)
                     orders.append((f'shuffled-{k}', o))
-            jobs += b3_file(chk, bench, f'{label}@{bench}', data, orders, cache)
+            jobs += b3_file(chk, bench, f'{label}@{bench}', data, orders, cache,
+                            api=chk.tier == 'thorough' or label == 'sync-same-ends')
     # non-default process-wide simulation parameters (GGN evaluated on a few channels of the propagated comb): batches
     # mixing channel counts (the spacing / channel-count variants of a base request), forced and automatic mode,
     # uni- and bidirectional
@@ -368,7 +399,7 @@ def run(chk):
             orders = [('original', list(range(n))), ('reversed', list(reversed(range(n))))]
             jobs += b3_file(chk, bench, f'{label}@{bench}', {'path-request': reqs}, orders, cache, api=False)
     # seeded random batches (every blocking reason, fixed / multi slots, aggregation), each in several orders
-    nrand = 3 if chk.tier == 'quick' else 32
+    nrand = 2 if chk.tier == 'quick' else 32
     for b in range(nrand):
         bench = 'meshV2+island' if b % 4 != 3 else 'testTopology'
         reqs = pu.loadable(bench, pu.random_batch(rng, bench, f'r{b}-', 10))
@@ -416,7 +447,13 @@ def run(chk):
                'refusal that depends on the ordering is')
     chk.assume('requests built through the API (PathRequest(**params) with the loader\'s resolved values, optional keys not '
                'given left to the class defaults) are the same requests: they are compared with the same solo runs')
-    chk.assume('network settings are observed through json_io.network_to_json (one CRC per exported element)')
+    chk.assume('reported views compared between runs: response entry (route, mode, metrics, z-a block), the CSV row of '
+               'jsontocsv (all columns; bandwidth / pass flag / cost only when neither run blocked the request in spectrum '
+               'assignment), the receivers at the return of each propagation and the element list of the reverse path')
+    chk.assume('used-network runs: the forced-mode requests of the batch are first simulated one by one on the network\'s own '
+               'elements (compute_constrained_path + propagate); judged only when that left network_to_json unchanged')
+    chk.assume('network settings are observed through json_io.network_to_json (one CRC per exported element) plus the element '
+               'list of every OMS (from the start of routing to the end of planning)')
     chk.assume('bench equipment = shipped eqpt_config.json plus two library transceiver types (VerifDense 25 GHz comb, '
                'VerifHard unreachable OSNR thresholds); no gnpy code is modified')
     chk.assume('B2 expectation "blocked NO_SPECTRUM / served" relies on first-fit filling from the bottom of the band '
@@ -522,6 +559,46 @@ def _mut_rolloff_not_kept():
     R.compute_path_with_disjunction = W.compute_path_with_disjunction = ns['compute_path_with_disjunction']
 
 
+def _mut_penalties_kept():
+    """a receiver keeps the penalties of its previous evaluation when the mode defines none"""
+    import gnpy.core.elements as E
+    orig = E.Transceiver.calc_penalties
+
+    def calc_penalties(self, penalties):
+        if not penalties:
+            return
+        orig(self, penalties)
+    E.Transceiver.calc_penalties = calc_penalties
+
+
+def _mut_csv_rev_carried():
+    """the CSV writer carries the reverse-direction block of a bidirectional row into the following rows"""
+    import gnpy.topology.request as R
+    orig = R._jsontopath_metric
+    last = {}
+
+    def jsontocsv(json_data, equipment, fileout):
+        import io
+        import csv as _csv
+        buf = io.StringIO()
+        orig_csv(json_data, equipment, buf)
+        buf.seek(0)
+        rows = list(_csv.DictReader(buf))
+        rev = [k for k in rows[0] if k.startswith('reversed path')] if rows else []
+        carry = None
+        for r in rows:
+            if r['path'] and any(r[k] for k in rev):
+                carry = {k: r[k] for k in rev}
+            elif r['path'] and carry and r['Pass?'] in ('True', 'False'):
+                r.update(carry)
+        w = _csv.DictWriter(fileout, fieldnames=list(rows[0]) if rows else [])
+        w.writeheader()
+        w.writerows(rows)
+    orig_csv = R.jsontocsv
+    R.jsontocsv = jsontocsv
+
+
 MUTANTS = {'no_deepcopy': _mut_no_deepcopy, 'shared_receiver': _mut_shared_receiver,
            'gain_written_back': _mut_gain_written_back, 'roadm_state_reused': _mut_roadm_state_reused,
-           'design_mutated': _mut_design_mutated, 'rolloff_not_kept': _mut_rolloff_not_kept}
+           'design_mutated': _mut_design_mutated, 'rolloff_not_kept': _mut_rolloff_not_kept,
+           'penalties_kept': _mut_penalties_kept, 'csv_rev_carried': _mut_csv_rev_carried}
